@@ -318,6 +318,15 @@ where
                 if e.abs() <= emax { pairs.push((fx(b), fx(e))); }
             }
         }
+        // y * ln x at and beyond the range of D (the product must be refused, not wrapped): extreme bases x extreme exponents
+        {
+            let mx = mask(ls.w - 1);                                   // S::MAX
+            let mn = 1u128 << (ls.w - 1);                              // S::MIN
+            let bs = [mx, mx >> 1, 1u128 << (ls.w - 2), 8u128 << ls.f, 1, 2, 1u128 << (ls.f / 2), (1u128 << ls.f) + (1u128 << (ls.f - 1))];
+            let es = [mx, mn, mx >> 1, mn | (mn >> 1), 1u128 << (ls.w - 3), neg_of(ls, 1u128 << (ls.w - 3)),
+                      (1u128 << ls.f) << ((ls.w - ls.f) / 2), neg_of(ls, (1u128 << ls.f) << ((ls.w - ls.f) / 2)), 40u128 << ls.f, neg_of(ls, 40u128 << ls.f)];
+            for &b in &bs { for &e in &es { pairs.push((b, e)); } }
+        }
         for (x, y) in pairs {
             let (a, b) = (S::from_raw(x & mask(ls.w)), S::from_raw(y & mask(ls.w)));
             let (r, it) = call::<D, _>(ls, ld, || tr::pow::<S, D>(a, b));
